@@ -1,6 +1,7 @@
 package checks
 
 import (
+	"encoding/binary"
 	"fmt"
 	"strings"
 	"sync"
@@ -115,6 +116,46 @@ func C03(r *ev.Run) {
 			if err != nil && d == nil {
 				extraClasses["finalize-refused:"+kind]++
 				continue
+			}
+			// a second Finalize into a range that ends a few bytes behind the last byte the first one wrote (not a
+			// multiple of any block size): the image fits, and nothing may be written behind the range
+			if err == nil && len(d.Outside) == 0 {
+				hi := int64(0)
+				for _, e := range d.Events {
+					if e.Kind == memdev.EvWrite && e.Off+int64(e.Len) > hi {
+						hi = e.Off + int64(e.Len)
+					}
+				}
+				if strings.HasPrefix(kind, "squashfs") {
+					// the superblock says how many bytes the archive occupies (bytes_used at offset 40); padding a previous
+					// run may have written behind it is not part of the archive
+					if used := int64(binary.LittleEndian.Uint64(d.Peek(start+40, 8))); used > 96 && start+used <= hi {
+						hi = start + used
+					}
+				}
+				if hi > start {
+					tight := hi - start + 8
+					fin++
+					var td *memdev.Dev
+					switch kind {
+					case "iso", "iso-rr":
+						if img, _ := buildISOSized(tree, iso9660.FinalizeOptions{RockRidge: kind == "iso-rr"}, 2048, start, tight, true); img != nil {
+							td = img.Dev
+						}
+					default:
+						if img, _ := buildSquashSized(tree, squashfs.FinalizeOptions{NoFragments: kind == "squashfs-nofrag"}, 4096, start, tight, true); img != nil {
+							td = img.Dev
+						}
+					}
+					if td == nil {
+						extraClasses["finalize-refused:"+kind+"/tight"]++
+					} else if len(td.Outside) > 0 {
+						o := td.Outside[0]
+						r.Report(fmt.Sprintf("c03|finalize|%s|tight-range|write-outside|%s", kind, lastFrame(o.Stack)), fmt.Sprintf("%s Finalize given [%d,%d) (the image needs %d bytes) wrote %d bytes at %d; call path %s", kind, start, start+tight, hi-start, o.Len, o.Off, o.Stack), map[string]any{"kind": kind, "start": start, "size": tight})
+					} else {
+						finOK++
+					}
+				}
 			}
 			if len(d.Outside) > 0 {
 				o := d.Outside[0]
